@@ -3,6 +3,7 @@
   the unary call path is InprocUnary, the HTTP server's second-request probe is Framing/C07).
 -/
 import Proofs.Lemmas.InprocAll
+import Proofs.Lemmas.InprocUnaryAll
 
 namespace InprocStream
 
@@ -95,3 +96,26 @@ example : ∃ s s', run (init 1 1 false) [.sSendBegin 201, .sWriteEnq, .sReturn 
   exact ⟨_, _, rfl, rfl, rfl, rfl⟩
 
 end InprocStream
+
+/-! ### the unary call (`Channel.Invoke`) -/
+namespace InprocUnary
+open InprocStream (Reason HErr Res codeOf translate)
+
+/-- **Unary: exactly one response or an error.** `Invoke` returns nil only if the handler returned
+    exactly one response and no error, and the caller has been given that response. -/
+theorem C08_unary_exactly_one (cap : Nat) (s : St) (h : Reachable cap s) (hr : s.result = some .ok) :
+    ∃ x, s.hRet = some (some x, none) ∧ s.respCopied = some x ∧ dataCount s.enq ≤ 1 := by
+  obtain ⟨_, hc, hok⟩ := all_unary cap s h
+  obtain ⟨x, h1, h2, _⟩ := hok.okc hr
+  exact ⟨x, h1, h2, by have := hc.cnt; omega⟩
+
+/-- **A handler that returns neither a response nor an error** is reported as Internal. -/
+theorem C08_unary_no_response_is_internal : expectedU (none, none) = .status 13 := rfl
+
+/-- a second response frame — which the server goroutine never writes — would be Internal too -/
+theorem C08_unary_second_response_is_error (s : St) (v : Nat) (rest : List UFrame)
+    (hres : s.result = none) (hch : s.ch = .data v :: rest) (hgot : s.gotResponse = true) :
+    ∃ s', step s .cTake = some (s', []) ∧ s'.result = some (.status 13) := by
+  simp [step, hres, hch, hgot]
+
+end InprocUnary
